@@ -343,7 +343,12 @@ def gen_echo(rng, cap, c):
     octs = []
     for p in ps:
         octs += noise(rng, rng.below(3)) + frame(c["SC_DLCI_ECHO"], p)
-    ops = [("reg", 5), ("feed", octs), ("pull", len(octs) + 4)]
+    ops = [("reg", 5)]
+    if rng.chance(1, 2):
+        # a second registration on a DLCI that already has a handler (the echo DLCI, DLCI 5) is refused with -EBUSY and must
+        # leave the handler that is registered in place: the frames below still come back as echoes
+        ops += [("reg", c["SC_DLCI_ECHO"]), ("reg", 5)]
+    ops += [("feed", octs), ("pull", len(octs) + 4)]
     return dict(kind="echo", ops=ops, regs=[5], echo=ps, tags=set())
 
 
